@@ -99,6 +99,9 @@ fn now_ms() -> u64 {
 }
 
 pub fn watchdog(dir: &str, cap_ms: u64) {
+    if let Ok(mut g) = DIR.lock() {
+        g.push_str(dir);
+    }
     let dir = dir.to_string();
     std::thread::spawn(move || loop {
         std::thread::sleep(std::time::Duration::from_millis(200));
@@ -110,6 +113,17 @@ pub fn watchdog(dir: &str, cap_ms: u64) {
             std::process::exit(3);
         }
     });
+}
+
+static DIR: Mutex<String> = Mutex::new(String::new());
+
+/// called from the allocator when a request exceeds the hard cap (the real process would abort
+/// with "memory allocation of N bytes failed")
+pub fn report_abort(n: usize) {
+    let case = CURRENT.try_lock().map(|g| g.clone()).unwrap_or_default();
+    let dir = DIR.try_lock().map(|g| g.clone()).unwrap_or_default();
+    let j = serde_json::json!({"class": "abort-alloc", "what": format!("allocation request of {n} bytes (process would abort)"), "case": case});
+    let _ = std::fs::write(std::path::Path::new(&dir).join("hang.txt"), j.to_string());
 }
 
 pub fn begin_case(case: &str) {
